@@ -90,4 +90,40 @@ inline std::string forked(const std::function<std::string()>& f, int timeoutSec 
   return out;
 }
 
+// Run a whole history in a forked child whose stdout (the emitted case lines) is relayed; if the
+// child dies, the complete lines it produced are kept and one extra line
+// "<crashOp>\tfault:<kind>" records the crash as an observation.
+inline void forkedEmit(const std::function<void()>& f, const std::string& crashOp, int timeoutSec = 120) {
+  int fd[2];
+  if (pipe(fd) != 0) { emit(crashOp, "fault:pipe"); return; }
+  fflush(stdout);
+  pid_t pid = fork();
+  if (pid == 0) {
+    close(fd[0]);
+    dup2(fd[1], 1);
+    close(fd[1]);
+    alarm(static_cast<unsigned>(timeoutSec));
+    int rc = 0;
+    try { f(); }
+    catch (const std::exception& e) { fflush(stdout); printf("%s\tfault:exception:%s\n", crashOp.c_str(), typeid(e).name()); }
+    catch (...) { fflush(stdout); printf("%s\tfault:exception:unknown\n", crashOp.c_str()); }
+    fflush(stdout);
+    _exit(rc);
+  }
+  close(fd[1]);
+  std::string out; char buf[65536]; ssize_t n;
+  while ((n = read(fd[0], buf, sizeof buf)) > 0) out.append(buf, static_cast<size_t>(n));
+  close(fd[0]);
+  int st = 0; waitpid(pid, &st, 0);
+  const auto lastNl = out.rfind('\n');
+  if (lastNl == std::string::npos) out.clear(); else out.resize(lastNl + 1);
+  fputs(out.c_str(), stdout);
+  if (WIFSIGNALED(st)) {
+    const int sig = WTERMSIG(st);
+    emit(crashOp, std::string("fault:signal:") + (sig == SIGALRM ? "timeout" : sig == SIGSEGV ? "segv" : sig == SIGABRT ? "abort" : std::to_string(sig)));
+  } else if (WIFEXITED(st) && WEXITSTATUS(st) != 0) {
+    emit(crashOp, "fault:exit:" + std::to_string(WEXITSTATUS(st)));
+  }
+}
+
 } // namespace vh
